@@ -43,6 +43,7 @@ SCHEMA_DIR = "compliance_tool/aas_compliance_tool/schemas"
 JSON_REL = SCHEMA_DIR + "/aasJSONSchema.json"
 XSD_REL = SCHEMA_DIR + "/aasXMLSchema.xsd"
 OUT = os.path.join(common.GEN, "Gen_Schema.v")
+OUT_XML = os.path.join(common.GEN, "Gen_SchemaXml.v")
 XS = "{http://www.w3.org/2001/XMLSchema}"
 AAS_NS = "https://admin-shell.io/aas/3/0"
 
@@ -475,3 +476,479 @@ def flatten_xsd():
     from lxml import etree
     tree = etree.parse(os.path.join(common.REPO, XSD_REL), etree.XMLParser(remove_comments=True, resolve_entities=False))
     return XsdFlat(tree.getroot()).flatten()
+
+
+# =============================================================================================== specification side
+# The metamodel constraint table and the mapping attribute -> member / element name, written from "Details of the
+# Asset Administration Shell, Part 1, V3.0" (section 5.3.11 primitive and simple data types; 5.3.x class tables;
+# section 9/10 mappings: the JSON member and the XML element carry the attribute's name in lower camel case, plural
+# for attributes of cardinality *).  Attribute names on the left are the SDK's Python names (the value universe of
+# the model is the SDK's objects); everything on the right is the specification's.
+# constrained string types: name -> (minLength, maxLength, [lexical space names])
+STRING_TYPES = {
+    "Identifier": (1, 2000, []), "LabelType": (1, 64, []), "NameType": (1, 128, []),
+    "IdShortType": (1, 128, ["idshort"]), "PathType": (1, 2000, ["fileuri"]), "ContentType": (1, 100, ["mime"]),
+    "MessageTopicType": (1, 255, []), "VersionType": (1, 4, ["version"]), "RevisionType": (1, 4, ["version"]),
+    "ValueTypeIec61360": (1, 2000, []), "NonEmptyString": (1, None, []), "BcpLangString": (1, None, ["bcp47"]),
+    "Text128": (1, 128, []), "Text1023": (1, 1023, []), "Text255": (1, 255, []), "Text18": (1, 18, []),
+    # typed literals computed by the SDK (xsd_repr / base64): hypotheses about that output, see props/C05.v
+    "ValueDataType": (0, None, []), "DateTimeUtc": (0, None, ["datetimeutc"]), "Duration": (0, None, ["duration"]),
+    "BlobType": (0, None, ["base64"]),
+}
+# lexical space name -> how to find the schema's pattern text that formalises it: (JSON prefix, XSD prefix)
+LEXICAL = {
+    "xmlchar": ("^([\\t\\n\\r -\ud7ff\ue000-\ufffd]|", None),                # AASd-130; implicit in XML 1.0
+    "idshort": ("^[a-zA-Z][a-zA-Z0-9_]*$", "[a-zA-Z][a-zA-Z0-9_]*"),
+    "version": ("^(0|[1-9][0-9]*)$", "(0|[1-9][0-9]*)"),
+    "bcp47": ("^(([a-zA-Z]{2,3}(-[a-zA-Z]{3}(-[a-zA-Z]{3}){2})?|", "(([a-zA-Z]{2,3}(-[a-zA-Z]{3}(-[a-zA-Z]{3}){2})?|"),
+    "mime": ("^([!#$%&'*+\\-.^_`|~0-9a-zA-Z])+/", "([!#$%&'*+\\-.^_`|~0-9a-zA-Z])+/"),
+    "fileuri": ("^file:(//((localhost|", "file:(//((localhost|"),
+    "datetimeutc": ("^-?(([1-9][0-9][0-9][0-9]+)|(0[0-9][0-9][0-9]))-", "-?(([1-9][0-9][0-9][0-9]+)|(0[0-9][0-9][0-9]))-"),
+    "duration": ("^-?P(", "-?P("),
+    "base64": (None, None),                                                  # xs:base64Binary (XSD built-in type)
+}
+MEMBER = {  # python attribute -> name in both serialisations
+    "key": "keys", "referred_semantic_id": "referredSemanticId", "version": "version", "revision": "revision",
+    "creator": "creator", "template_id": "templateId", "type": "type", "value_type": "valueType", "value": "value",
+    "value_id": "valueId", "kind": "kind", "name": "name", "refers_to": "refersTo",
+    "data_specification": "dataSpecification", "data_specification_content": "dataSpecificationContent",
+    "preferred_name": "preferredName", "data_type": "dataType", "definition": "definition", "short_name": "shortName",
+    "unit": "unit", "unit_id": "unitId", "source_of_definition": "sourceOfDefinition", "symbol": "symbol",
+    "value_format": "valueFormat", "value_list": "valueList", "level_types": "levelType",
+    "external_subject_id": "externalSubjectId", "path": "path", "content_type": "contentType",
+    "asset_kind": "assetKind", "global_asset_id": "globalAssetId", "specific_asset_id": "specificAssetIds",
+    "asset_type": "assetType", "default_thumbnail": "defaultThumbnail", "asset_information": "assetInformation",
+    "submodel": "submodels", "derived_from": "derivedFrom", "submodel_element": "submodelElements",
+    "is_case_of": "isCaseOf", "min": "min", "max": "max", "type_value_list_element": "typeValueListElement",
+    "order_relevant": "orderRelevant", "semantic_id_list_element": "semanticIdListElement",
+    "value_type_list_element": "valueTypeListElement", "first": "first", "second": "second",
+    "annotation": "annotations", "input_variable": "inputVariables", "output_variable": "outputVariables",
+    "in_output_variable": "inoutputVariables", "entity_type": "entityType", "statement": "statements",
+    "observed": "observed", "direction": "direction", "state": "state", "message_topic": "messageTopic",
+    "message_broker": "messageBroker", "last_update": "lastUpdate", "min_interval": "minInterval",
+    "max_interval": "maxInterval", "language": "language", "text": "text", "id_short": "idShort",
+    "display_name": "displayName", "category": "category", "description": "description", "extension": "extensions",
+    "embedded_data_specifications": "embeddedDataSpecifications", "id": "id", "administration": "administration",
+    "semantic_id": "semanticId", "supplemental_semantic_id": "supplementalSemanticIds", "qualifier": "qualifiers",
+}
+# (class, attribute) -> constrained string type; ("*", attribute) applies to every class having the attribute
+STRING_OF = {
+    ("*", "id_short"): "IdShortType", ("*", "category"): "NameType", ("*", "id"): "Identifier",
+    ("Key", "value"): "Identifier",
+    ("AdministrativeInformation", "version"): "VersionType", ("AdministrativeInformation", "revision"): "RevisionType",
+    ("AdministrativeInformation", "template_id"): "Identifier",
+    ("Qualifier", "type"): "NameType", ("Extension", "name"): "NameType",
+    ("DataSpecificationIEC61360", "unit"): "NonEmptyString",
+    ("DataSpecificationIEC61360", "source_of_definition"): "NonEmptyString",
+    ("DataSpecificationIEC61360", "symbol"): "NonEmptyString",
+    ("DataSpecificationIEC61360", "value_format"): "NonEmptyString",
+    ("DataSpecificationIEC61360", "value"): "ValueTypeIec61360", ("ValueReferencePair", "value"): "ValueTypeIec61360",
+    ("SpecificAssetId", "name"): "LabelType", ("SpecificAssetId", "value"): "Identifier",
+    ("Resource", "path"): "PathType", ("Resource", "content_type"): "ContentType",
+    ("AssetInformation", "global_asset_id"): "Identifier", ("AssetInformation", "asset_type"): "Identifier",
+    ("Entity", "global_asset_id"): "Identifier",
+    ("Blob", "content_type"): "ContentType", ("File", "content_type"): "ContentType", ("File", "value"): "PathType",
+    ("BasicEventElement", "message_topic"): "MessageTopicType",
+    ("LangString", "language"): "BcpLangString",
+    # typed literals
+    ("Qualifier", "value"): "ValueDataType", ("Extension", "value"): "ValueDataType",
+    ("Property", "value"): "ValueDataType", ("Range", "min"): "ValueDataType", ("Range", "max"): "ValueDataType",
+    ("Blob", "value"): "BlobType", ("BasicEventElement", "last_update"): "DateTimeUtc",
+    ("BasicEventElement", "min_interval"): "Duration", ("BasicEventElement", "max_interval"): "Duration",
+}
+LANG_TEXT = {"MultiLanguageNameType": "Text128", "MultiLanguageTextType": "Text1023", "DefinitionTypeIEC61360": "Text1023",
+             "PreferredNameTypeIEC61360": "Text255", "ShortNameTypeIEC61360": "Text18"}
+# metamodel cardinality 1..* of collection attributes (every other collection is 0..*)
+MIN_ONE = {("ExternalReference", "key"), ("ModelReference", "key"), ("DataSpecificationIEC61360", "value_list")}
+# DataTypeDefXsd of Part 1 V3.0 (30 literals): the SDK additionally offers NormalizedString, which is no metamodel value
+XSD_TYPES = ["relativedelta", "datetime", "Date", "time", "GYearMonth", "GYear", "GMonthDay", "GMonth", "GDay", "bool",
+             "Base64Binary", "HexBinary", "Float", "float", "Decimal", "int", "Long", "Int", "Short", "Byte",
+             "NonPositiveInteger", "NegativeInteger", "NonNegativeInteger", "PositiveInteger", "UnsignedLong",
+             "UnsignedInt", "UnsignedShort", "UnsignedByte", "AnyURI", "str"]
+DATA_ELEMENTS = ["Property", "MultiLanguageProperty", "Range", "Blob", "File", "ReferenceElement"]
+SUBMODEL_ELEMENTS = DATA_ELEMENTS + ["SubmodelElementCollection", "SubmodelElementList", "RelationshipElement",
+                                     "AnnotatedRelationshipElement", "Operation", "Capability", "Entity",
+                                     "BasicEventElement"]
+SME_CLASS_LITERALS = SUBMODEL_ELEMENTS + ["SubmodelElement", "DataElement", "EventElement"]
+ENUMS = {  # metamodel enumerations by the SDK's member names (the value universe), in the specification's order
+    "KeyTypes": ["ASSET_ADMINISTRATION_SHELL", "CONCEPT_DESCRIPTION", "SUBMODEL", "ANNOTATED_RELATIONSHIP_ELEMENT",
+                 "BASIC_EVENT_ELEMENT", "BLOB", "CAPABILITY", "DATA_ELEMENT", "ENTITY", "EVENT_ELEMENT", "FILE",
+                 "MULTI_LANGUAGE_PROPERTY", "OPERATION", "PROPERTY", "RANGE", "REFERENCE_ELEMENT",
+                 "RELATIONSHIP_ELEMENT", "SUBMODEL_ELEMENT", "SUBMODEL_ELEMENT_COLLECTION", "SUBMODEL_ELEMENT_LIST",
+                 "GLOBAL_REFERENCE", "FRAGMENT_REFERENCE"],
+    "QualifierKind": ["CONCEPT_QUALIFIER", "TEMPLATE_QUALIFIER", "VALUE_QUALIFIER"],
+    "AssetKind": ["TYPE", "INSTANCE", "NOT_APPLICABLE"], "ModellingKind": ["TEMPLATE", "INSTANCE"],
+    "EntityType": ["CO_MANAGED_ENTITY", "SELF_MANAGED_ENTITY"], "Direction": ["INPUT", "OUTPUT"],
+    "StateOfEvent": ["ON", "OFF"],
+    "DataTypeIEC61360": ["DATE", "STRING", "STRING_TRANSLATABLE", "INTEGER_MEASURE", "INTEGER_COUNT", "INTEGER_CURRENCY",
+                         "REAL_MEASURE", "REAL_COUNT", "REAL_CURRENCY", "BOOLEAN", "IRI", "IRDI", "RATIONAL",
+                         "RATIONAL_MEASURE", "TIME", "TIMESTAMP", "HTML", "BLOB", "FILE"],
+    "IEC61360LevelType": ["MIN", "NOM", "TYP", "MAX"],
+}
+# explicit defaults of the metamodel: the attribute may be absent from a document, the value is then this one
+DEFAULTS = {("Submodel", "kind"): ("VStr", "INSTANCE"), ("SubmodelElementList", "order_relevant"): ("VBool", True),
+            ("Qualifier", "kind"): ("VStr", "CONCEPT_QUALIFIER")}
+REFS = ["ModelReference", "ExternalReference"]
+
+
+def string_type(cls, attr):
+    return STRING_OF.get((cls, attr)) or STRING_OF.get(("*", attr))
+
+
+def spec_kind(cls, attr, kind):
+    """aasgen.META kind -> (optional?, skind tuple) with the metamodel's constraints"""
+    def S(name):
+        if name is None:
+            raise Fail(f"spec: no constrained string type for {cls}.{attr}")
+        return ("KStr", name)
+    mn1 = (cls, attr) in MIN_ONE
+    if kind == "str":
+        return False, S(string_type(cls, attr))
+    if kind in ("ostr", "ostr0"):
+        return True, S(string_type(cls, attr))
+    if kind == "bool":
+        return False, ("KBool",)
+    if kind.startswith("enum:"):
+        return False, ("KEnum", ENUMS[kind[5:]])
+    if kind.startswith("oenum:"):
+        return True, ("KEnum", ENUMS[kind[6:]])
+    if kind == "xsdtype":
+        return False, ("KEnum", XSD_TYPES)
+    if kind == "oxsdtype":
+        return True, ("KEnum", XSD_TYPES)
+    if kind == "keytypeclass":
+        return False, ("KEnum", SME_CLASS_LITERALS)
+    if kind in ("leaf", "obytes", "odatetime", "oduration"):
+        t = string_type(cls, attr)
+        if t is None:
+            raise Fail(f"spec: no literal type for {cls}.{attr}")
+        return True, ("KLeaf", t)
+    if kind in ("ref", "oref"):
+        return kind[0] == "o", ("KObj", REFS, "")
+    if kind in ("mref", "omref"):
+        return kind[0] == "o", ("KObj", ["ModelReference"], "")
+    if kind in ("reflist", "refset"):
+        return False, ("KList", ("KObj", REFS, ""), mn1)
+
+    def classes(c):
+        return {"SubmodelElement": SUBMODEL_ELEMENTS, "DataElement": DATA_ELEMENTS}.get(c, [c])
+    if kind.startswith("obj:") or kind.startswith("oobj:"):
+        return kind[0] == "o" and kind[1] == "o", ("KObj", classes(kind.split(":", 1)[1]), "")
+    if kind == "set:enum:IEC61360LevelType":
+        return False, ("KEnumSet", ENUMS["IEC61360LevelType"])
+    if kind.startswith("list:") or kind.startswith("set:"):
+        return False, ("KList", ("KObj", classes(kind.split(":", 1)[1]), ""), mn1)
+    if kind.startswith("oset:"):
+        return True, ("KList", ("KObj", classes(kind[5:]), ""), mn1)
+    if kind.startswith("olang:") or kind.startswith("lang:"):
+        return kind[0] == "o", ("KList", ("KObj", ["LangString"], "@" + kind.split(":", 1)[1]), True)
+    raise Fail(f"spec: kind {kind}")
+
+
+def spec_meta():
+    """class key (class or class@context) -> [(attr, member, optional, skind, default)]"""
+    import aasgen
+    out = {}
+    for cls, attrs in aasgen.META.items():
+        rows = []
+        for attr, kind in attrs:
+            if attr not in MEMBER:
+                raise Fail(f"spec: no mapping name for attribute {cls}.{attr}")
+            opt, k = spec_kind(cls, attr, kind)
+            rows.append((attr, MEMBER[attr], opt, k, DEFAULTS.get((cls, attr))))
+        out[cls] = rows
+    for ctx, t in LANG_TEXT.items():
+        out["LangString@" + ctx] = [("language", "language", False, ("KStr", "BcpLangString"), None),
+                                    ("text", "text", False, ("KStr", t), None)]
+    return out
+
+
+def resolve_lexical(patterns, flavour):
+    """lexical space name -> pattern id of the given schema ('J' / 'X')"""
+    res = {}
+    for name, (jp, xp) in LEXICAL.items():
+        pre = jp if flavour == "J" else xp
+        if pre is None:
+            continue
+        hits = [i for i, p in enumerate(patterns) if p.startswith(pre)]
+        if len(hits) != 1:
+            raise Fail(f"spec: lexical space {name}: {len(hits)} {flavour} patterns start with {pre!r}")
+        res[name] = f"{flavour}{hits[0]}"
+    return res
+
+
+# =============================================================================================== top-level lists
+def json_tops():
+    """_create_dict of json_serialization.py: [(member, class)] in emission order (fail-closed on its shape)"""
+    import ast
+    src = open(os.path.join(common.REPO, "sdk/basyx/aas/adapter/json/json_serialization.py")).read()
+    f = next((n for n in ast.parse(src).body if isinstance(n, ast.FunctionDef) and n.name == "_create_dict"), None)
+    if f is None:
+        raise Fail("json_serialization._create_dict not found")
+    lists, tops = {}, []
+    for st in f.body:
+        u = ast.unparse(st)
+        if isinstance(st, ast.AnnAssign) and isinstance(st.value, (ast.List, ast.Dict)):
+            continue
+        if isinstance(st, ast.For):
+            m = re.findall(r"isinstance\(obj, model\.(\w+)\):\n\s+(\w+)\.append\(obj\)", u)
+            if len(m) != 3 or u.count("isinstance") != 3:
+                raise Fail("_create_dict: classification loop changed shape")
+            lists = {var: cls for cls, var in m}
+            continue
+        if isinstance(st, ast.If):
+            m = re.fullmatch(r"if (\w+):\n\s+dict_\['(\w+)'\] = (\w+)", u)
+            if not m or m.group(1) != m.group(3) or m.group(1) not in lists:
+                raise Fail(f"_create_dict: unsupported statement {u[:80]}")
+            tops.append((m.group(2), lists[m.group(1)]))
+            continue
+        if isinstance(st, ast.Return) and u == "return dict_":
+            continue
+        raise Fail(f"_create_dict: unsupported statement {u[:80]}")
+    if len(tops) != 3:
+        raise Fail("_create_dict: expected three top-level lists")
+    return tops
+
+
+# =============================================================================================== emission
+def q(s):
+    b = s.encode("utf-8")
+    if any(c < 32 or c == 127 for c in b):
+        raise Fail(f"control character in a string for a Coq literal: {s!r}")
+    return '"' + s.replace('"', '""') + '"'
+
+
+def strs(l):
+    return "[" + "; ".join(q(x) for x in l) + "]"
+
+
+def coq_facets(f):
+    mx = "None" if f["max"] is None else f"(Some {f['max']}%N)"
+    return f"(mkF {f['min']}%N {mx} {strs(f['pats'])})"
+
+
+def coq_sty(t):
+    k = t[0]
+    if k == "str":
+        return f"SStr {coq_facets(t[1])}"
+    if k == "bool":
+        return "SBool"
+    if k == "enum":
+        return f"SEnum {strs(t[1])}"
+    if k == "arr":
+        return f"SArr ({coq_sty(t[1])}) {'true' if t[2] else 'false'}"
+    if k == "obj":
+        return f"SObj {q(t[1])}"
+    if k == "one":
+        return f"SOne {strs(t[1])}"
+    raise Fail(f"emit: JSON type {t}")
+
+
+def coq_xty(t):
+    k = t[0]
+    if k == "str":
+        return f"XStr {coq_facets(t[1])}"
+    if k == "bool":
+        return "XBool"
+    if k == "b64":
+        return "XB64"
+    if k == "enum":
+        return f"XEnum {strs(t[1])}"
+    if k == "cls":
+        return f"XCls {q(t[1])}"
+    if k == "list":
+        return f"XList {q(t[1])} ({coq_xty(t[2])})"
+    if k == "many":
+        return f"XMany {q(t[1])}"
+    if k == "one":
+        return f"XOne {q(t[1])}"
+    raise Fail(f"emit: XML type {t}")
+
+
+def type_facets(name, lex):
+    mn, mx, spaces = STRING_TYPES[name]
+    pats = [lex[s] for s in spaces if s in lex]
+    if "xmlchar" in lex:
+        pats = [lex["xmlchar"]] + pats
+    return {"min": mn, "max": mx, "pats": pats}
+
+
+def coq_skind(k, lex):
+    t = k[0]
+    if t == "KStr":
+        return f"KStr {coq_facets(type_facets(k[1], lex))}"
+    if t == "KLeaf":
+        f = type_facets(k[1], lex)      # a typed literal: only the lexical space of its type, no AASd-130 facet
+        f["pats"] = [p for p in f["pats"] if p != lex.get("xmlchar")]
+        return f"KLeaf {coq_facets(f)}"
+    if t == "KBool":
+        return "KBool"
+    if t == "KEnum":
+        return f"KEnum {strs(k[1])}"
+    if t == "KEnumSet":
+        return f"KEnumSet {strs(k[1])}"
+    if t == "KObj":
+        return f"KObj {strs(k[1])} {q(k[2])}"
+    if t == "KList":
+        return f"KList ({coq_skind(k[1], lex)}) {'true' if k[2] else 'false'}"
+    raise Fail(f"emit: kind {k}")
+
+
+def coq_default(d):
+    if d is None:
+        return "None"
+    if d[0] == "VStr":
+        return f"(Some (VStr {q(d[1])}))"
+    return f"(Some (VBool {'true' if d[1] else 'false'}))"
+
+
+def json_triples(rules, j, meta, tops):
+    """(SDK class, context, schema class) triples reachable from the environment's lists, following the writer rules.
+    Only a candidate set for the Coq check [conforms] (which re-checks every triple and every membership): nothing
+    here is trusted."""
+    jc = {c: {m: (r, ty) for m, r, ty in ps} for c, ps in j["classes"].items()}
+    env = jc[j["root"]]
+    todo, seen = [], []
+
+    def add(tr):
+        if tr not in seen:
+            seen.append(tr)
+            todo.append(tr)
+
+    def mt_of(cls):
+        return dict((m, v) for m, v in rules["classes"].get(cls, {}).get("consts", [])).get("modelType")
+
+    def follow(k, enc, ty):
+        if k[0] == "KObj":
+            for c in k[1]:
+                if ty[0] == "obj":
+                    add((c, k[2], ty[1]))
+                elif ty[0] == "one":
+                    for a in ty[1]:
+                        row = jc.get(a, {}).get("modelType")
+                        if row and row[1] == ("enum", [mt_of(c)]):
+                            add((c, k[2], a))
+                            break
+        elif k[0] == "KList":
+            if enc[0] == "EAuto" and ty[0] == "arr":
+                follow(k[1], ["EAuto"], ty[1])
+            elif enc[0] == "EListWrap" and ty[0] == "arr" and ty[1][0] == "obj":
+                row = jc.get(ty[1][1], {}).get(enc[1])
+                if row:
+                    follow(k[1], ["EAuto"], row[1])
+            elif enc[0] == "EObjWrap" and ty[0] == "obj":
+                row = jc.get(ty[1], {}).get(enc[1])
+                if row and row[1][0] == "arr":
+                    follow(k[1], ["EAuto"], row[1][1])
+
+    for member, cls in tops:
+        row = env.get(member)
+        if row and row[1][0] == "arr" and row[1][1][0] == "obj":
+            add((cls, "", row[1][1][1]))
+    while todo:
+        cls, ctx, scls = todo.pop(0)
+        attrs = meta.get(cls + ctx)
+        crules = rules["classes"].get(cls)
+        if attrs is None or crules is None or scls not in jc:
+            continue
+        byattr = {}
+        for w in crules["w"]:
+            byattr.setdefault(w["attr"], w)
+        for attr, member, opt, k, dflt in attrs:
+            w = byattr.get(attr)
+            if w is None:
+                continue
+            row = jc[scls].get(w["member"])
+            if row:
+                follow(k, w["enc"], row[1])
+    return seen
+
+
+def translate():
+    import py2coq.jsonrules as jsonrules
+    j = flatten_json()
+    x = flatten_xsd()
+    for name, alts in x["choices"].items():
+        for tag, t in alts:
+            if t[0] != "cls":
+                raise Fail(f"XSD: choice {name}: alternative {tag} is not of a class type")
+    meta = spec_meta()
+    jlex = resolve_lexical(j["patterns"], "J")
+    xlex = resolve_lexical(x["patterns"], "X")
+    tops = json_tops()
+    rules = jsonrules.translate()
+    return dict(json=j, xsd=x, meta=meta, jlex=jlex, xlex=xlex, json_tops=tops,
+                json_triples=json_triples(rules, j, meta, tops),
+                string_types=STRING_TYPES, lang_text=LANG_TEXT)
+
+
+def coq_smeta(name, meta, lex):
+    out = [f"Definition {name} : smeta := ["]
+    rows = []
+    for c, attrs in meta.items():
+        rows.append(f"  ({q(c)}, [" + ";\n     ".join(
+            f"mkA {q(a)} {q(m)} {'true' if o else 'false'} ({coq_skind(k, lex)}) {coq_default(d)}"
+            for a, m, o, k, d in attrs) + "])")
+    out.append(";\n".join(rows) + "].")
+    return out
+
+
+def emit_json(t):
+    j, meta = t["json"], t["meta"]
+    out = ["(* GENERATED by tools/py2coq/schemas.py from compliance_tool/aas_compliance_tool/schemas/aasJSONSchema.json of the",
+           "   current working tree (+ the specification-side metamodel table of that module).  Do not edit. *)",
+           "From Coq Require Import List String NArith.",
+           "From Basyx Require Import model.Codec model.SchemaBase model.Schema.",
+           "Import ListNotations.", "Local Open Scope string_scope.", "",
+           "(* pattern ids: J<n> = n-th distinct `pattern` text of the JSON schema (texts in build/schemas.json) *)",
+           "Definition json_schema : jschema := ["]
+    rows = []
+    for c, ps in j["classes"].items():
+        rows.append(f"  ({q(c)}, [" + ";\n     ".join(
+            f"mkP {q(m)} {'true' if r else 'false'} ({coq_sty(ty)})" for m, r, ty in ps) + "])")
+    out.append(";\n".join(rows) + "].")
+    out.append(f"Definition json_root : string := {q(j['root'])}.")
+    out.append("")
+    out += coq_smeta("json_smeta", meta, t["jlex"])
+    out.append("(* top-level lists of _create_dict: (member, class) in emission order *)")
+    out.append("Definition json_tops : list (string * string) := [" +
+               "; ".join(f"({q(m)}, {q(c)})" for m, c in t["json_tops"]) + "].")
+    out.append("(* candidate set of (SDK class, context, schema class) triples; re-checked by [conforms] *)")
+    out.append("Definition json_triples : list triple := [" +
+               ";\n  ".join(f"({q(a)}, {q(b)}, {q(c)})" for a, b, c in t["json_triples"]) + "].")
+    return "\n".join(out) + "\n"
+
+
+def emit_xml(t):
+    x, meta = t["xsd"], t["meta"]
+    out = ["(* GENERATED by tools/py2coq/schemas.py from compliance_tool/aas_compliance_tool/schemas/aasXMLSchema.xsd of the",
+           "   current working tree.  Do not edit. *)",
+           "From Coq Require Import List String NArith.",
+           "From Basyx Require Import model.SchemaBase model.SchemaXml.",
+           "Import ListNotations.", "Local Open Scope string_scope.", "",
+           "(* pattern ids: X<n> = n-th distinct xs:pattern value of the XML schema (texts in build/schemas.json) *)",
+           "Definition xml_classes : list (string * list xpart) := ["]
+    rows = []
+    for c, ps in x["classes"].items():
+        rows.append(f"  ({q(c)}, [" + ";\n     ".join(
+            f"mkX {q(m)} {'true' if o else 'false'} ({coq_xty(ty)})" for m, o, ty in ps) + "])")
+    out.append(";\n".join(rows) + "].")
+    out.append("Definition xml_choices : list (string * list (string * string)) := [")
+    out.append(";\n".join(f"  ({q(c)}, [" + "; ".join(f"({q(tag)}, {q(ty[1])})" for tag, ty in alts) + "])"
+                          for c, alts in x["choices"].items()) + "].")
+    out.append("Definition xml_schema : xschema := mkXS xml_classes xml_choices.")
+    out.append(f"Definition xml_root : string * string := ({q(x['root'][0])}, {q(x['root'][1])}).")
+    return "\n".join(out) + "\n"
+
+
+def regenerate():
+    t = translate()
+    changed = common.write_if_changed(OUT, emit_json(t))
+    changed2 = common.write_if_changed(OUT_XML, emit_xml(t))
+    os.makedirs(common.BUILD, exist_ok=True)
+    with open(os.path.join(common.BUILD, "schemas.json"), "w") as f:
+        json.dump(t, f, indent=1, default=list)
+    return (f"Gen_Schema.v {'rewritten' if changed else 'unchanged'}, Gen_SchemaXml.v "
+            f"{'rewritten' if changed2 else 'unchanged'} ({len(t['json']['classes'])} JSON classes, "
+            f"{len(t['xsd']['classes'])} XSD groups, {len(t['xsd']['choices'])} choice groups, "
+            f"{len(t['json_triples'])} JSON triples)")
